@@ -118,14 +118,19 @@ package casket
 //@ ghost nShut int
 //@ ghost nStop int
 //@ ghost nStart int
+//@ ghost nLive int
 //@ func startWithListenerFds
 //@   may_panic
-//@   modifies ghost:nStart
+//@   modifies ghost:nStart, ghost:nLive
 //@   ensures nStart == old(nStart) + 1
-//@   ensures_on_panic nStart <= old(nStart) + 1
+//@   ensures (result == nil ==> nLive == old(nLive) + 1) && (result != nil ==> nLive == old(nLive))
+//@   ensures_on_panic nStart <= old(nStart) + 1 && nLive == old(nLive)
+//@ // Stop only logs what a server's Stop reports (proved in unit instance_stop): stopping the old instance cannot turn a
+//@ // reload whose successor is already serving into a reported failure
 //@ func (*Instance).Stop
 //@   modifies ghost:nStop
 //@   ensures nStop == old(nStop) + 1
+//@   ensures [stop_reports_no_error] result == nil
 //@ extern fmt.Errorf
 //@   ensures result != nil
 //@ extern (*sync.WaitGroup).Add
@@ -143,8 +148,8 @@ package casket
 //@   ensures [receiver_untouched] i == old(i)
 //@   loop 1 invariant 0 <= #i && #i <= len(i.OnRestartFailed) && nFailed == old(nFailed) + #i && i != nil
 //@ func (*Instance).Restart
-//@   requires i != nil && i.wg != nil && nRestart == 0 && nFailed == 0 && nShut == 0 && nStop == 0 && nStart == 0
-//@   modifies ghost:nRestart, ghost:nFailed, ghost:nShut, ghost:nStop, ghost:nStart, ptr:error, ptr:*github.com/tmpim/casket.Instance
+//@   requires i != nil && i.wg != nil && nRestart == 0 && nFailed == 0 && nShut == 0 && nStop == 0 && nStart == 0 && nLive == 0
+//@   modifies ghost:nRestart, ghost:nFailed, ghost:nShut, ghost:nStop, ghost:nStart, ghost:nLive, ptr:error, ptr:*github.com/tmpim/casket.Instance
 //@   at call dynamic#1 do nRestart = nRestart + 1
 //@   at call dynamic#2 do nShut = nShut + 1
 //@   at call startWithListenerFds assert [restart_callbacks_first] nRestart == len(i.OnRestart) && nStop == 0 && nShut == 0
@@ -152,8 +157,11 @@ package casket
 //@   ensures [failure_keeps_old_instance] err != nil ==> inst == i
 //@   ensures [failed_callbacks_iff_failure] (err != nil ==> nFailed == len(i.OnRestartFailed)) && (err == nil ==> nFailed == 0)
 //@   ensures [nothing_of_old_stopped_before_new_runs] nStart == 0 ==> (nStop == 0 && nShut == 0)
+//@   ensures [live_successor_is_success] nLive == 1 ==> (err == nil && nShut == len(i.OnShutdown))
+//@   // Stop reports no error (its contract): the early return after it is dead, by declaration
+//@   unreachable reachable_return#3
 //@   ensures [success_runs_each_shutdown_once] err == nil ==> (inst != nil && nStart == 1 && nStop == 1 && nShut == len(i.OnShutdown) && nRestart == len(i.OnRestart))
-//@   loop 1 invariant 0 <= #i && #i <= len(i.OnRestart) && nRestart == #i && nFailed == 0 && nShut == 0 && nStop == 0 && nStart == 0 && err == nil
+//@   loop 1 invariant 0 <= #i && #i <= len(i.OnRestart) && nRestart == #i && nFailed == 0 && nShut == 0 && nStop == 0 && nStart == 0 && nLive == 0 && err == nil
 //@   loop 3 invariant 0 <= #i && #i <= len(i.OnShutdown) && nShut == #i && nFailed == 0 && nStop == 1 && nStart == 1 && nRestart == len(i.OnRestart) && err == nil
 
 //@ unit event_hooks frames=on props=C08 filter=`casket\.restoreEventHooks$`
@@ -202,3 +210,11 @@ package casket
 //@   requires hooksPurged == 0
 //@   modifies ghost:hooksPurged, ghost:savedHooks
 //@   loop 1 invariant [hooks_intact_between_signals] hooksPurged == 0
+
+//@ unit instance_stop props=C16,C08 filter=`casket\.Instance\)\.Stop$`
+//@ // Stop stops every server, takes the instance off the list under the lock, and reports no error (a server that fails
+//@ // to stop is logged): Restart treats an error from it as a failed reload although the successor is already live.
+//@ func (*Instance).Stop
+//@   requires i != nil
+//@   ensures [stop_reports_no_error] result == nil
+//@   ensures [lock_balance] held(instancesMu) == old(held(instancesMu))
